@@ -314,7 +314,7 @@ func judgeYAML(c yamlCase, note func(r yamlRef, w want, known string)) string {
 		// cross-check of the library's own numbers: its character index must denote the same character
 		if got := utf8.RuneCount(data[:start+pos]); got != r.index {
 			rec.Discard("yaml/library-index-disagrees-with-its-line-column")
-			return ""
+			return fmt.Sprintf("DEBUG index %d vs %d line %d col %d %s", r.index, got, r.line, r.col, r.msg)
 		}
 		if knownClass("C17/yaml-char-index") && !isASCII(data[:start+pos]) {
 			known = "C17/yaml-char-index"
